@@ -340,10 +340,10 @@ class SimulaQronNetworkInfo(NetworkInfo):
         """Returns the node name for the node with the given ID"""
         # TODO always use network name "default"?
         _qnodeos_net = _get_qnodeos_net_config(network_name="default")
-        for node_name, host in _qnodeos_net.hostDict.items():
-            if node_id == host.ip:
-                return node_name
-        raise KeyError("Unknown node ID {node_id}")
+        node_names = sorted(_qnodeos_net.hostDict.keys())
+        if isinstance(node_id, int) and 0 <= node_id < len(node_names):
+            return node_names[node_id]
+        raise KeyError(f"Unknown node ID {node_id}")
 
     @classmethod
     def get_node_id_for_app(cls, app_name):
